@@ -11,6 +11,7 @@ def register(reg):
     register_crypto(reg)
     register_core(reg)
     register_validation(reg)
+    register_proxies(reg)
 
     @reg.specfun("as_bytes")
     def as_bytes(ex, st, args, cx):
@@ -111,7 +112,18 @@ def register_core(reg):
     unint("inside", 2)       # inside(v, c): Config object c occurs inside value v (v itself, or an item at any nesting depth)
     unint("tree_rel", 4)     # tree_rel(t, c, virtual, mask): t is the rendering of configuration c (defined by to_tree's clauses)
     unint("basic_rel", 4)    # basic_rel(f, cfg, v, b): b is field f's on-disk form of value v (outcome of f.to_basic)
-    unint("accepts", 2)      # accepts(field, stored_value): the field's declared constraints hold of the value
+    unint("item_norm", 3)    # item_norm(proxy, x, v): v is the list proxy's validated form of x (outcome of ListProxy._validate)
+    unint("accepts", 2)
+
+    def unstr(name, n):
+        @reg.specfun(name)
+        def f(ex, st, args, cx, name=name):
+            fn = ex.w.fun("spec_" + name, *(["V"] * n + ["str"]))
+            return ex.o.str_(fn(*[a.e for a in args]))
+    unstr("cfg_path", 1)     # full reference path of a configuration (outcome of Config._ref_path)
+    unstr("cfg_root", 1)     # path of the enclosing scope of a configuration
+    unstr("field_path", 1)   # schema path of a field (outcome of BaseField._ref_path)
+    unint("accepts_", 2)      # accepts(field, stored_value): the field's declared constraints hold of the value
     unint("ok", 2)           # ok(field, input): validation accepts the input
     unint("norm_of", 3)      # norm_of(field, input, result): result is the field's normalised form of input
 
@@ -181,3 +193,23 @@ def register_validation(reg):
         return w.fun("usercall1_ok", "V", "V", "bool")(fn, config.e)
     upto("fields_ok_upto", field_step)
     upto("validators_ok_upto", validator_step)
+
+
+def register_proxies(reg):
+    @reg.specfun("ins_pos")
+    def ins_pos(ex, st, args, cx):
+        """position at which list.insert(i, x) puts x in a list of length n"""
+        o = ex.o
+        i, n = o.i(args[0]), o.i(args[1])
+        p = z3.If(i < 0, z3.If(n + i < 0, 0, n + i), z3.If(i > n, n, i))
+        st.terms.append(("int", p))
+        return o.int_(p)
+
+    @reg.specfun("entry_norm")
+    def entry_norm(ex, st, args, cx):
+        return ex.o.bool_(ex.w.fun("spec_entry_norm", "V", "V", "V", "V", "V", "bool")(*[a.e for a in args]))
+
+    @reg.specfun("has_new_key")
+    def has_new_key(ex, st, args, cx):
+        """has_new_key(d, k): k is the key the last __setitem__ wrote (ghost: recorded by the definitional clause)"""
+        return ex.o.bool_(ex.w.fun("spec_written_key", "V", "V", "bool")(args[0].e, args[1].e))
